@@ -290,12 +290,15 @@ def run(report, prog, tier):
     rule_t34(report, prog)
     from .c01 import rule_raw_capacity
     rule_raw_capacity(report, prog, rule='C03-R4')
+    from .c01 import rule_tt2_memory_units
+    rule_tt2_memory_units(report, prog, rule='C03-R4')
     report.trusted += ['product memory maps: Topaz 120 byte (data 8..103), Topaz-512 (data 8..103 and 128..511), NTAG user memory from page 4',
                        'control TLV semantics of NFC Forum T1T/T2T']
     report.assumptions += ['the capacity gate of C01-R1 keeps value bytes below the data-area end (value-level argument, not decided here)']
 
 
 MUTANTS = [
+    ('tt2-sector-recorded-before-select', 'nfc.tag.tt2', "            sector_select_1 = b'\\xC2\\xFF'\n", "            self._current_sector = sector\n            sector_select_1 = b'\\xC2\\xFF'\n", 'C03-R4'),
     ('tt2-capacity-ignores-reserved-tail', 'nfc.tag.tt2', "capacity = len(set(range(offset, capacity + 16)) - skip_bytes)", "capacity = capacity + 16 - offset - sum(1 for a in skip_bytes if offset <= a < capacity)", 'C03-R4'),
     ('tt1-capacity-counts-reserved', 'nfc.tag.tt1', "capacity = len(set(range(offset, tag_memory_size)) - skip_bytes)", "capacity = tag_memory_size - offset", 'C03-R4'),
     ('tt2-data-ignores-skip', 'nfc.tag.tt2', """                while offset + index in skip_bytes:
